@@ -2,6 +2,8 @@
 from __future__ import annotations
 
 import itertools
+import json
+import zlib
 import time
 
 import numpy as np
@@ -28,7 +30,7 @@ def enumerate_specs(tier):
                     masks.append([1 if j == i else 0 for j in range(len(ins))])
             for m in masks:
                 specs.append({"op": name, "args": args, "variant": {"req": m}})
-            ci = len(specs)
+            ci = zlib.crc32(json.dumps([name, args], sort_keys=True).encode())   # stable under additions to the catalogue
             if ci % 4 == 0 and len(ins[0].shape) >= 2:     # first operand as a non-contiguous view
                 specs.append({"op": name, "args": args, "variant": {"req": full, "layout": "T" if ci % 8 == 0 else "S"}})
             if od.smooth_at_zero(args):              # an input entry that is exactly 0
